@@ -70,6 +70,8 @@ def run(tier, seed):
     thru = vlib.build_repo_bin('./cmd/thru', 'thru')
     dial = vlib.run_vh_sharded(['connrace-dial', '-edges', ep, '-max-allfail', '0' if quick else '1', '-free', '12' if quick else '40'], 12, timeout=2400)
     acc = vlib.run_vh_sharded(['connrace-accept', '-edges', ep, '-thruserv', srv, '-thru', thru, '-max', '7' if quick else '0'], 8, timeout=3000)
+    # the same scripts against a receiver that also has a TURN allocation (two listeners): the first connection it sees is one the sender abandons
+    acct = vlib.run_vh_sharded(['connrace-accept', '-edges', ep, '-thruserv', srv, '-thru', thru, '-turn', '-loser-first', '-max', '2' if quick else '12'], 4, timeout=3000)
     # the TCP variant of the same set-up (dumb-tcp mode): the receiver's real dialAddrs against the sender's real
     # acceptWithContext behind one forwarder per announced address (the driver decides which path reaches the listener
     # first), and whole `--dumb-tcp` sessions with both real binaries
@@ -88,7 +90,7 @@ def run(tier, seed):
         else:
             print("NOTE C09: a relay session showed an anomaly that belongs to another property: %s" % viol['sig'])
     turn['violations'] = keep
-    res = vlib.merge_results([dial, acc, tcpd, tcps, turn])
+    res = vlib.merge_results([dial, acc, acct, tcpd, tcps, turn])
     for viol in res['violations']:
         v.violation(viol['sig'], viol.get('replay'))
     # whole sessions with both real binaries on this multi-address host; traces validated against SessionTrace.tla
@@ -97,7 +99,7 @@ def run(tier, seed):
     v.coverage = dict(states=r['distinct'], transitions=r['generated'], depth=r['depth'], constants=dict(K=3),
                       traces_validated_against_impl=res['behaviours'],
                       replay=dict(dial_schedules=dial['behaviours'], distinct_dial_projections=dial['distinct'],
-                                  accept_scripts=acc['behaviours'], distinct_accept_scripts=acc['distinct'],
+                                  accept_scripts=acc['behaviours'], accept_scripts_with_relay_listener=acct['behaviours'], distinct_accept_scripts=acc['distinct'],
                                   dial_outcomes=dial['extra'].get('outcomes'), accept_outcomes=acc['extra'].get('outcomes'),
                                   candidate_addresses=dial['extra'].get('candidate_ips'),
                                   relay_sessions=dict(sessions=turn['behaviours'], outcomes=turn['extra'].get('outcomes')),
